@@ -711,7 +711,12 @@ impl RealW {
                             }
                         }
                     };
-                    o.f("self_verify", sv);
+                    // a clone of the key signs identically (state is not consumed by use)
+                    let clone_ok = match sg {
+                        RSigner::Key(sk) if mode == 0 => sk.clone().sign(&m.0).to_bytes() == sig.to_bytes(),
+                        _ => true,
+                    };
+                    o.f("self_verify", sv && clone_ok);
                 }
             }
             Step::Ver { mode, key, m, sig, ctx, ch, chosen, d } => {
